@@ -9,7 +9,7 @@ RULE = ("durations supplied as host Value::Duration variables (exact nanosecond 
         "duration(string(d)) == d, all boundary pairs under + - and the six relations; well-formed strings from the "
         "term grammar (multi-term, fractional, leading zeros, us / micro-sign spellings, sign) with integer-exact "
         "expected values; malformed strings from a mutation grammar (trailing text, missing unit, doubled sign, sign "
-        "after the first term, exponent, inf / nan, spaces, empty, unit only, unknown unit); non-trivial = value off "
+        "after the first term, exponent, inf / nan, spaces, empty, unit only, unknown unit), every sign prefix of 2-3 characters, and for every unit the largest whole number that fits, its successor and digit runs up to 120 digits; non-trivial = value off "
         "the round boundaries or a malformed mutant; distinct = distinct (source, context)")
 ASSUMPTIONS = ["spellings the statement does not pin down ('+1s', '.5s', '1.s') are not judged",
                "fractional terms are expected to be converted exactly (truncating below a nanosecond)"]
